@@ -475,3 +475,215 @@ _targets_c13_with_purity = targets
 
 def targets():      # noqa: F811
     return _targets_c13_with_purity() + [target_mrq_fit_circuit()]
+
+
+
+_DLT_REPRO = '''import numpy as np
+from pyimpspec.analysis.drt.tr_nnls import _calculate_delta_ln_tau
+tau = np.exp(np.array(%r, dtype=float))
+got = _calculate_delta_ln_tau(tau)
+ln = np.log(tau)
+want = np.zeros(tau.size)
+want[1:-1] = 0.5 * (ln[2:] - ln[:-2])
+want[0] = 0.5 * (ln[1] - ln[0])
+want[-1] = 0.5 * (ln[-1] - ln[-2])
+assert np.allclose(got, want, rtol=1e-9, atol=1e-12), (got, want)
+'''
+
+
+def target_delta_ln_tau():
+    """tr_nnls._calculate_delta_ln_tau(tau): the quadrature weights of the DRT integral over ln(tau) for ANY grid of time constants
+    (evenly spaced or not -- masked points, sweeps of varying density): interior weight i is half the distance between the
+    neighbours, 0.5*(ln tau[i+1] - ln tau[i-1]), the two end weights are half the first / last step -- so the weights sum to the
+    trapezoidal rule's and gamma integrates to the polarisation resistance.  For every number of points >= 2 and every array of
+    logarithms; real function run by CPython on a symbolic size (pyvc.hoare), the loop over interior points cut at an invariant."""
+    from pyvc import core, hoare as H
+    from .diagrams import make_no_raise
+
+    def run(sess: Session):
+        I, R = z3.IntSort(), z3.RealSort()
+        space = H.NodeSpace([])
+        ns = H.base_namespace(space)
+        specs = H.LoopSpecs()
+        vc = H.VC(specs, space)
+        st = {}
+
+        def ln(x):
+            return st["ln_tau"]
+
+        def zeros(n, dtype=None):
+            out = H.SymList("zeros")
+            out.len = H._z(n)
+            return out
+
+        def full(n, v, dtype=None):
+            out = H.SymList("full")
+            out.len = H._z(n)
+            out.arr = z3.K(I, H._to_real(H._z(v)))
+            return out
+        ns.update(ln=ln, log=ln, zeros=zeros, full=full, float64=None, diff=None)
+        real = H.build_function(core.find_def(NNLS, "_calculate_delta_ln_tau"), ns, vc)
+
+        def want(q):
+            L, n = st["L"], st["n"]
+            return z3.If(q == 0, (z3.Select(L, 1) - z3.Select(L, 0)) / 2,
+                         z3.If(q == n - 1, (z3.Select(L, n - 1) - z3.Select(L, n - 2)) / 2, (z3.Select(L, q + 1) - z3.Select(L, q - 1)) / 2))
+
+        @specs.add("_calculate_delta_ln_tau", 1)
+        def _(env):
+            out = env.unique(H.SymList, "delta_ln_tau")
+            q, n = st["q"], st["n"]
+            return [("the interior weights filled so far are half the distance between the neighbours", z3.Implies(z3.And(1 <= q, q < 1 + env.i, q < n - 1), z3.Select(out.arr, q) == want(q))),
+                    ("the array of weights keeps its length", out.len == n),
+                    ("the logarithms are only read", z3.And(st["ln_tau"].len == n, st["ln_tau"].arr == st["L"]))]
+        no_raise = make_no_raise(NNLS)
+        counts = {"paths": 0}
+
+        def go(c):
+            n, q = z3.Int("n"), z3.Int("q")
+            L = z3.Const("ln_tau", z3.ArraySort(I, R))
+            c.assume(n >= 2)
+            lt = H.SymList("ln_tau")
+            lt.len, lt.arr = n, L
+            st.update(n=n, q=q, L=L, ln_tau=lt)
+            tau = type("Tau", (), {"size": H.Rv(n), "length": lambda s_: H.Rv(n)})()
+            ok, out = no_raise("_calculate_delta_ln_tau", lambda: real(tau))
+            if not ok:
+                return
+            counts["paths"] += 1
+            c.canary("_calculate_delta_ln_tau, at return")
+            shape = isinstance(out, H.SymList)
+            c.check("the result is the array of weights", z3.BoolVal(shape), "post")
+            if shape:
+                c.check("one weight per time constant", out.len == n, "post")
+                c.check("weight q is half the distance between the neighbours of ln tau[q] (half the first / last step at the ends), for every grid", z3.Implies(z3.And(0 <= q, q < n), z3.Select(out.arr, q) == want(q)), "post")
+        n0 = len(sess.obligations)
+        H.explore(sess, [], go)
+        sess.check("cover", [], z3.BoolVal(counts["paths"] >= 1), 0, label=f"paths to the return: {counts['paths']}")
+        for ob in sess.obligations[n0:]:
+            if ob.status == "refuted" and getattr(ob, "model", None) and not ob.replay:
+                # any uneven grid shows a wrong weight formula natively: the model's size with an uneven spacing
+                try:
+                    size = int(str(ob.model.get("n", "5")).replace("?", ""))
+                except ValueError:
+                    size = 5
+                size = min(max(size, 4), 50)
+                grid = [0.0] + [float(k * k) / 7 + 0.3 * k for k in range(1, size)]
+                ob.replay = {"input": grid, "repro": _DLT_REPRO % (grid,)}
+    return (f"{NNLS}:_calculate_delta_ln_tau", NNLS, "_calculate_delta_ln_tau", run)
+
+
+_targets_before_delta = targets
+
+
+def targets():      # noqa: F811
+    return _targets_before_delta() + [target_delta_ln_tau()]
+
+
+
+PEAKS = "analysis/drt/peak_analysis"
+_AREA_REPRO = '''import numpy as np
+from scipy.integrate import quad
+from pyimpspec.analysis.drt.peak_analysis import DRTPeak, DRTPeaks
+p = DRTPeak(position=0.5, height=1.0, alpha=0.3, sigma=0.1, x_offset=-3.0, x_scale=4.0, y_offset=0.0, y_scale=100.0)
+tau = np.logspace(-3, 1, 200)
+want = quad(lambda lt: float(p.get_gammas(np.array([np.exp(lt)]))[0]), np.log(tau.min()), np.log(tau.max()), points=[np.log(1e-1)])[0]      # integral of gamma over ln(tau)
+got = [p.get_area(tau), DRTPeaks(time_constants=tau, peaks=[p], suffix="").get_peak_area(0)]
+assert all(abs(g - want) <= 1e-6 * abs(want) for g in got), (got, want)
+'''
+
+
+def target_peak_area():
+    """DRTPeak.get_area / DRTPeaks.get_peak_area: the area of a fitted peak is the integral of its gamma over ln(tau) between the
+    smallest and the largest time constant -- computed as quad(gamma as a function of log10 tau, log10 tau_min, log10 tau_max)
+    divided by log10(e) (d ln tau = d log10 tau / log10 e); both routes, the same number.  DRTPeak._get_gamma(log10 tau) is
+    get_gammas(tau).  Real methods on rational symbols: `quad` is a stub returning an opaque integral I, the result must be I / log10(e)."""
+    def run(sess: Session):
+        P = L.fresh_ctx([z3.Real("log10(e)") > 0, z3.Real("x_scale") != 0]).P
+
+        class Mark:
+            def __init__(self, name):
+                self.name = name
+
+            def __rpow__(self, base):
+                return Mark(f"{base}**{self.name}")
+
+        def log(x):
+            if isinstance(x, Mark):
+                return sym(f"log10({x.name})")
+            raise O.Unsupported("log10 of something other than e, min(tau) or max(tau)")
+        for which in ("DRTPeak.get_area", "DRTPeaks.get_peak_area"):
+            calls = []
+
+            def quad(func=None, a=None, b=None, *rest, **kw):
+                if rest or kw:
+                    raise O.Unsupported("quad with further options")
+                calls.append((func, a, b))
+                return (sym("I"), sym("abserr"))
+            asked = []
+
+            class Peak:
+                def _get_gamma(self, x):
+                    asked.append(("log10", x))
+                    return sym("gamma")
+
+                def get_gammas(self, tau):
+                    asked.append(("tau", tau))
+                    return sym("gamma")
+            taus = Mark("taus")
+            ns = dict(quad=quad, log=log, log10=log, exp=lambda x: Mark("e") if x == 1 else (_ for _ in ()).throw(O.Unsupported("exp of something else")),
+                      min=lambda x: Mark("tau_min") if x is taus else (_ for _ in ()).throw(O.Unsupported("min of something else")),
+                      max=lambda x: Mark("tau_max") if x is taus else (_ for _ in ()).throw(O.Unsupported("max of something else")),
+                      _is_integer=lambda i: isinstance(i, int), float64=None)
+            O.load(PEAKS, [which], ns)
+            fn = ns[which.split(".")[1]]
+            peak = Peak()
+            if which == "DRTPeak.get_area":
+                Peak.get_area = fn
+                out = peak.get_area(taus)
+            else:
+                me = type("Peaks", (), {"get_num_peaks": lambda s_: 2, "peaks": [Peak(), peak], "time_constants": taus})()
+                out = fn(me, 1)
+            tag = f"[{which}]"
+            sess.check("post", [], z3.BoolVal(len(calls) == 1), 0, label=f"{tag}one integration")
+            if len(calls) == 1 and isinstance(out, SQ):
+                func, a, b = calls[0]
+                sess.check_qeq("post", P, out, sym("I") / sym("log10(e)"), 0, label=f"{tag}area == integral over log10(tau) / log10(e)  (= integral over ln tau)")
+                sess.check_qeq("post", P, a, sym("log10(tau_min)"), 0, label=f"{tag}lower limit == log10(min tau)")
+                sess.check_qeq("post", P, b, sym("log10(tau_max)"), 0, label=f"{tag}upper limit == log10(max tau)")
+                X = Mark("X")
+                func(X)
+                ok = asked in ([("log10", X)], ) or (len(asked) == 1 and asked[0][0] == "tau" and isinstance(asked[0][1], Mark) and asked[0][1].name == "10**X")
+                sess.check("post", [], z3.BoolVal(bool(ok) and (which == "DRTPeak.get_area" or True)), 0, label=f"{tag}the integrand at X is this peak's gamma at log10 tau = X")
+            else:
+                sess.check("post", [], z3.BoolVal(False), 0, label=f"{tag}area is a number computed from the integral")
+        # _get_gamma(log10 tau) == get_gammas(tau)
+        xs = []
+
+        def skew(x=None, h=None, p=None, a=None, s=None):
+            xs.append((x, h, p, a, s))
+            return sym("sn")
+        me = type("P", (), {k: sym(k) for k in ("position", "height", "alpha", "sigma", "x_offset", "x_scale", "y_offset", "y_scale")})()
+        ns = dict(_skew_normal=skew, log=lambda t: sym("lt"), log10=lambda t: sym("lt"))
+        O.load(PEAKS, ["DRTPeak.get_gammas", "DRTPeak._get_gamma"], ns)
+        g1 = ns["get_gammas"](me, "tau")
+        g2 = ns["_get_gamma"](me, sym("lt"))
+        sess.check("post", [], z3.BoolVal(len(xs) == 2), 0, label="[_get_gamma]one skew-normal evaluation each")
+        if len(xs) == 2:
+            sess.check_qeq("post", P, xs[0][0], xs[1][0], 0, label="[_get_gamma]same relative abscissa for log10 tau as get_gammas for tau")
+            sess.check_qeq("post", P, xs[0][0], (sym("lt") - sym("x_offset")) / sym("x_scale"), 0, label="[_get_gamma]relative abscissa == (log10 tau - x_offset)/x_scale")
+            for k, nm in enumerate(("height", "position", "alpha", "sigma"), start=1):
+                sess.check_qeq("post", P, xs[1][k], sym(nm), 0, label=f"[_get_gamma]{nm} handed to the skew normal")
+            sess.check_qeq("post", P, g2, g1, 0, label="[_get_gamma]_get_gamma(log10 tau) == get_gammas(tau)")
+            sess.check_qeq("post", P, g2, sym("sn") * sym("y_scale") + sym("y_offset"), 0, label="[_get_gamma]gamma == skew normal * y_scale + y_offset")
+        for ob in sess.obligations:
+            if ob.status == "refuted" and not ob.expect_refuted and not ob.replay and ("get_area" in ob.name or "get_peak_area" in ob.name):
+                ob.replay = {"input": "one skew-normal peak on 1e-3..10 s", "repro": _AREA_REPRO}
+    return (f"{PEAKS}:DRTPeak.get_area / DRTPeaks.get_peak_area", PEAKS, "DRTPeak.get_area", run)
+
+
+_targets_before_area = targets
+
+
+def targets():      # noqa: F811
+    return _targets_before_area() + [target_peak_area()]
